@@ -69,6 +69,26 @@ Proof. exact (fun n H => conj (b36_roundtrip n H) (b36_pair_is_pair n H)). Qed.
 Theorem C05_tempo_ids_distinct : forall a b, 0 <= a < 1296 -> 0 <= b < 1296 -> b36_pair a = b36_pair b -> a = b.
 Proof. exact b36_pair_injective. Qed.
 
+(* ---- the slot table as a whole: every row's line length new_den is a positive multiple of the row's denominator
+   (find_lcm applied to its (measure, channel) group), hence every object (hit, hold head, LN tail, tempo object) is put
+   at a slot inside its line denoting exactly its own fraction num/den of the measure; and two written objects share
+   (measure, channel, position) only if their rows did (uniqueness part of bms_write_wf) ---- *)
+Theorem C05_new_dens_divisible : forall (thr : Z) (rows : list wrow),
+  Forall (fun r => 0 < wr_den r) rows ->
+  Forall2 (fun r L => (wr_den r | L) /\ 0 < L) rows (new_dens thr rows).
+Proof. exact new_dens_divisible. Qed.
+Theorem C05_write_slots_positions : forall rows : list wrow,
+  Forall (fun r => 0 < wr_den r /\ 0 <= wr_num r < wr_den r) rows ->
+  Forall2 slot_rel rows (map (fun p => slot_of (fst p) (snd p)) (combine rows (new_dens LCM_THRESHOLD rows))).
+Proof. exact write_slots_positions. Qed.
+Theorem C05_written_positions_unique : forall r s r' s',
+  slot_rel r s -> slot_rel r' s' ->
+  ws_measure s = ws_measure s' -> ws_channel s = ws_channel s' ->
+  (inject_Z (ws_slot s) / inject_Z (ws_L s) == inject_Z (ws_slot s') / inject_Z (ws_L s'))%Q ->
+  wr_measure r = wr_measure r' /\ wr_channel r = wr_channel r'
+  /\ (inject_Z (wr_num r) / inject_Z (wr_den r) == inject_Z (wr_num r') / inject_Z (wr_den r'))%Q.
+Proof. exact written_positions_unique. Qed.
+
 (* ---- bms_no_merge, line level: filling distinct in-range slots of an empty line with non-00 ids puts exactly one
    object per row on the line (nothing merged, nothing dropped) ---- *)
 Theorem C05_no_merge : forall (rows : list wslot) (L : nat) (out : list text),
